@@ -13,6 +13,13 @@ PLANS = {
             'thorough': [E('C10', 'plain', 200000, 3600), E('C10', 'asan', 5000, 900, seed_offset=500000)]},
     'C03': {'quick': [E('C03', 'plain', 1400, 100), E('C03', 'asan', 120, 45, seed_offset=500000, run_wall_s=120)],
             'thorough': [E('C03', 'plain', 60000, 3600), E('C03', 'asan', 3000, 1200, seed_offset=500000)]},
+    # C07: monitor inside searches (plain + asan) and the same seeds in every SIMD build variant (hashes must agree)
+    'C07': {'quick': [E('C07', 'plain', 480, 60, compare_group='simd'), E('C07', 'plain-ssse3', 480, 60, compare_group='simd'),
+                      E('C07', 'plain-avx2', 480, 60, compare_group='simd'), E('C07', 'plain-avx512', 480, 60, compare_group='simd'),
+                      E('C07', 'asan', 100, 40, seed_offset=500000, run_wall_s=120)],
+            'thorough': [E('C07', 'plain', 20000, 2400, tier=1, compare_group='simd'), E('C07', 'plain-ssse3', 20000, 2400, tier=1, compare_group='simd'),
+                         E('C07', 'plain-avx2', 20000, 2400, tier=1, compare_group='simd'), E('C07', 'plain-avx512', 20000, 2400, tier=1, compare_group='simd'),
+                         E('C07', 'asan', 3000, 1200, seed_offset=500000, run_wall_s=300, tier=1)]},
     'C08': {'quick': [E('C08', 'plain', 6000, 70), E('C08', 'asan', 600, 40, seed_offset=500000)],
             'thorough': [E('C08', 'plain', 1000000, 3000, tier=1), E('C08', 'asan', 50000, 1500, seed_offset=500000, tier=1)]},
     'C09': {'quick': [E('C09', 'tsan', 400, 100, run_wall_s=200), E('C09PG', 'tsan', 300, 25, seed_offset=500000, run_wall_s=120)],
